@@ -26,7 +26,9 @@
 (assert (forall ((q NSeq)) (! (= (selSeq 12 q) q) :pattern ((selSeq 12 q)))))
 ;; filterSeq(t, a1, a2, q): the order-preserving sub-sequence of q of the nodes that pass node test t (2.3)
 ;;   t: 0 node() 1 text() 2 comment() 3 processing-instruction() 4 processing-instruction(lit a1)
-;;      5 *  6 ns:* (uri a1)  7 *:local (a2)  8 ns:local (uri a1, local a2)  9 local (a2), no namespace
+;;      5 *  6 ns:* (uri a1)  7 *:local (a2)  8 ns:local (uri a1, local a2)
+;;      9 local (a2) in no namespace; on the namespace axis the library's rule: namespace nodes whose URI is a1
+;;      any other code: nothing passes
 (define-fun namedNode ((n Cursor)) Bool (or (= (ckind n) 1) (= (ckind n) 2)))
 (define-fun nodeTest ((t Int) (a1 Str) (a2 Str) (n Cursor)) Bool
   (ite (= t 0) true (ite (= t 1) (= (ckind n) 4) (ite (= t 2) (= (ckind n) 5) (ite (= t 3) (= (ckind n) 6)
@@ -35,7 +37,9 @@
   (ite (= t 6) (and (namedNode n) (= (nodeSpace (nodeOf n)) a1))
   (ite (= t 7) (and (namedNode n) (= (nodeLocal (nodeOf n)) a2))
   (ite (= t 8) (and (namedNode n) (= (nodeSpace (nodeOf n)) a1) (= (nodeLocal (nodeOf n)) a2))
-       (and (namedNode n) (= (nodeSpace (nodeOf n)) str_empty) (= (nodeLocal (nodeOf n)) a2))))))))))))
+  (ite (= t 9) (or (and (namedNode n) (= (nodeSpace (nodeOf n)) str_empty) (= (nodeLocal (nodeOf n)) a2))
+                   (and (= (ckind n) 3) (= (nsValue (nodeOf n)) a1)))
+       false)))))))))))
 (declare-fun filterSeq (Int Str Str NSeq) NSeq)
 (assert (forall ((t Int) (a1 Str) (a2 Str) (q NSeq)) (! (and (=> (qnodes q) (qnodes (filterSeq t a1 a2 q))) (=> (sascq q) (sascq (filterSeq t a1 a2 q))) (=> (sdescq q) (sdescq (filterSeq t a1 a2 q))))
    :pattern ((filterSeq t a1 a2 q)))))
